@@ -31,7 +31,7 @@ PROPS = {
                 coq=['props/C04.vo'], side='clone', tags=[4],
                 streams=[('w1', 'S4', 50, 60), ('w2', 'S4', 25, 60)], configs=['dbg', 'rel'], need=['create', 'destroy', 'reg']),
     'C05': dict(title='Queries act on exactly the archetypes whose component set satisfies them',
-                coq=['props/C05.vo'], tags=[5], macro=dict(cases=150, stress=False),
+                coq=['props/C05.vo'], cfgprobe='cfg', tags=[5], macro=dict(cases=150, stress=False),
                 streams=[('w1', 'S5', 20, 50), ('w2', 'S5', 10, 50)], configs=['dbg'], need=['find', 'iter']),
     'C06': dict(title='Iteration visits every matching live entity exactly once with its own data',
                 coq=['props/C06.vo'], tags=[6],
